@@ -172,18 +172,27 @@ def respHeaderClass (hop : List Str) (down : Rules) (res : Response) (k : Str) :
   else if (down.map fun x => ruleTarget x.1).contains k then "downstream-rule"
   else "end-to-end-header"
 
-/-- the response-side property on what the client observed: status, header map, trailers -/
-def verdictResp (hop skip : List Str) (repl : Str → Str) (down : Rules) (pre : Hdr) (res : Response)
-    (status : Nat) (hdr trailers : Hdr) : String :=
+/-- status and header part of the response-side property -/
+def verdictRespHead (hop skip : List Str) (repl : Str → Str) (down : Rules) (pre : Hdr) (res : Response)
+    (status : Nat) (hdr : Hdr) : String :=
   if status != res.status then "bad:status:changed"
   else
     match (respKeys hop down pre res hdr).find? (fun k =>
         if k == sTrailer && res.announced.length > 0 then !sameMembers (hdr.vals k) res.announced
         else hdr.vals k != expectRespVals hop skip repl down pre res k) with
     | some k => "bad:" ++ respHeaderClass hop down res k ++ ":" ++ String.ofList (k.map fun c => Char.ofNat c.toNat)
-    | none =>
-      match (res.trailer.keys ++ trailers.keys).find? (fun k => trailers.vals k != res.trailer.vals k) with
-      | some k => "bad:trailer:" ++ String.ofList (k.map fun c => Char.ofNat c.toNat)
-      | none => "ok"
+    | none => "ok"
+
+/-- trailer part: the client receives exactly the backend's trailers -/
+def verdictRespTrailers (res : Response) (trailers : Hdr) : String :=
+  match (res.trailer.keys ++ trailers.keys).find? (fun k => trailers.vals k != res.trailer.vals k) with
+  | some k => "bad:trailer:" ++ String.ofList (k.map fun c => Char.ofNat c.toNat)
+  | none => "ok"
+
+/-- the response-side property on what the client observed: status, header map, trailers -/
+def verdictResp (hop skip : List Str) (repl : Str → Str) (down : Rules) (pre : Hdr) (res : Response)
+    (status : Nat) (hdr trailers : Hdr) : String :=
+  let v := verdictRespHead hop skip repl down pre res status hdr
+  if v != "ok" then v else verdictRespTrailers res trailers
 
 end Casket.ProxyMsgSpec
